@@ -628,6 +628,12 @@ impl IteratorRecord {
                 }
             }
             Err(inner_result) => {
+                // NOTE: An engine error (e.g. a runtime limit) is not a JavaScript completion: it
+                //       is never replaced by the pending completion.
+                if !inner_result.is_catchable() {
+                    return Err(inner_result);
+                }
+
                 // 5. If completion.[[Type]] is throw, return ? completion.
                 completion?;
 
@@ -635,6 +641,14 @@ impl IteratorRecord {
                 return Err(inner_result);
             }
         };
+
+        // NOTE: An engine error (e.g. a runtime limit) raised by `return` is not a JavaScript
+        //       completion: it is never replaced by the pending completion.
+        if let Err(err) = &inner_result
+            && !err.is_catchable()
+        {
+            return inner_result;
+        }
 
         // 5. If completion.[[Type]] is throw, return ? completion.
         let completion = completion?;
